@@ -476,6 +476,8 @@ def check_actions(repo, rep):
         # locals of the generating method that alias a field of the parser
         # (aliases = self._aliases) are that field
         pself = fi.parent_func.params()[:1]
+        if pself and pself[0] not in args:
+            cenv[pself[0]] = this      # the parser the actions belong to
         for st in model.walk_shallow(fi.parent_func.node):
             if isinstance(st, ast.Assign) and len(st.targets) == 1 and \
                     isinstance(st.targets[0], ast.Name) and isinstance(
